@@ -110,7 +110,7 @@ def run(ctx, out):
     for lim in limits:
         for d in sorted(set([1, max(1, lim - 1), lim, lim + 1, min(2 * lim, lim + 7)])):
             for rep in range(2 if quick else 3):
-                sg, ops = build_chain(rng, d, diamond=(rep == 1))
+                sg, ops = build_chain(rng, d, diamond=(rep == 1 and d <= 12))
                 plan.append(("chain", lim, d, sg, build_data(rng, branching=(d <= 8)), False))
     for op in OPS:
         for d in (2, 14, 15, 16):
